@@ -264,6 +264,8 @@ theorem payload_fits_inv (l : List InvVect) (h : invList.wf l) (pver : Nat) :
     (invList.enc l).length ≤ maxPayload "inv" pver := inv_fits l h pver
 theorem payload_fits_headers (l : List BlockHeader) (h : headers.wf l) (pver : Nat) :
     (headers.enc l).length ≤ maxPayload "headers" pver := headers_fits l h pver
+theorem payload_fits_version (pver : Nat) (v : VersionVal) (h : (version pver).wf v) :
+    ((version pver).enc v).length ≤ maxPayload "version" pver := version_fits pver v h
 theorem payload_fits_getblocks (m : Nat × List Bytes × Bytes) (h : getBlocks.wf m) (pver : Nat) :
     (getBlocks.enc m).length ≤ maxPayload "getblocks" pver := getBlocks_fits m h pver
 
